@@ -239,6 +239,8 @@ Proof.
   - eapply IHfuel; [| exact H]. exact HP.
   - injection H as <- <-. exact Hx.
 Qed.
+Lemma assign_size st sz : sz = ri_size st -> (if randiter_assign_copies_size then ri_size st else sz) = ri_size st.
+Proof. intros ->. destruct randiter_assign_copies_size; reflexivity. Qed.
 Lemma randiter_run : Randiter_run_stmt.
 Proof.
   intros P draw fuel ops. induction ops as [|op rest IH]; intros st outs st' HP Hops H; cbn [ri_run] in H.
@@ -253,11 +255,39 @@ Proof.
         split; [exact (proj2 (ri_nonzero_some _ _ _ _ _ En)) |].
         eapply ri_nonzero_P; [| exact En]. intros g. apply HP. reflexivity.
       - injection E1 as <- <-. split; [reflexivity | exact I].
-      - injection E1 as <- <-. split; [| exact I]. cbn [ri_size]. exact (Hops (IAssignInto size_other) (or_introl eq_refl)). }
+      - injection E1 as <- <-. split; [| exact I]. cbn [ri_size].
+        first [ reflexivity | exact (Hops (IAssignInto size_other) (or_introl eq_refl))
+              | apply assign_size; exact (Hops (IAssignInto size_other) (or_introl eq_refl)) ].
+      - injection E1 as <- <-. split; [reflexivity | exact I]. }
     destruct Hsz as [Hsz Ho].
     destruct (IH st1 outs1 st2) as [H1 H2]; [intros sz g ->; apply HP; exact Hsz | | exact E2 |].
     { intros op' Hin. specialize (Hops op' (or_intror Hin)). destruct op'; try exact I. rewrite Hsz. exact Hops. }
     split; [| rewrite H2; exact Hsz]. destruct o; [constructor; assumption | assumption].
+Qed.
+
+(* assignment: the assigned iterator goes on exactly like its source, whatever ring / sampling size / seed it was built with and
+   however it was used before; self-assignment changes nothing.  Verdict on the flag read from givranditer.h: refuted
+   (the target keeps its own sampling size) for operator= without `_size = R._size;` *)
+Definition Randiter_assign_stmt : Prop :=
+  forall fuel (draw : ri_draw_fn) st size_other ops,
+    ri_run fuel draw st (IAssignInto size_other :: ops) = ri_run fuel draw st ops /\
+    ri_run fuel draw st (ISelfAssign :: ops) = ri_run fuel draw st ops.
+Lemma randiter_assign_true : randiter_assign_copies_size = true -> Randiter_assign_stmt.
+Proof.
+  intros E fuel draw st sz ops. cbn [ri_run ri_step]. rewrite E. destruct st as [s g]. cbn [ri_size ri_gen].
+  split; destruct (ri_run fuel draw {| ri_size := s; ri_gen := g |} ops) as [[outs st2]|]; reflexivity.
+Qed.
+Lemma randiter_assign_false : randiter_assign_copies_size = false -> ~ Randiter_assign_stmt.
+Proof.
+  intros E H. destruct (H 1%nat (fun sz g => (sz, g)) {| ri_size := 1; ri_gen := 0 |} 2 [IDraw 0]) as [H1 _].
+  cbn [ri_run ri_step] in H1. rewrite E in H1. cbn in H1. discriminate.
+Qed.
+Definition Randiter_assign_verdict : Prop :=
+  if randiter_assign_copies_size then Randiter_assign_stmt else ~ Randiter_assign_stmt.
+Lemma randiter_assign : Randiter_assign_verdict.
+Proof.
+  unfold Randiter_assign_verdict. destruct randiter_assign_copies_size eqn:E;
+    [exact (randiter_assign_true E) | exact (randiter_assign_false E)].
 Qed.
 
 (* the two iterators that seed GMP's global generator *)
